@@ -462,6 +462,67 @@ func c18Weight(c any) (n int) {
 	return 0
 }
 
+// c18OffsetMax: the largest cumulative offset any Array / Map inside c holds.  After a FAILED decode a column may be
+// left with offsets read from the hostile bytes and no elements; Row(i) of an array whose elements never refuse an index
+// (Nothing) then builds a row of that many elements: such a column is not probed
+func c18OffsetMax(c any) (m uint64) {
+	defer func() {
+		if recover() != nil {
+			m = 0
+		}
+	}()
+	if c == nil {
+		return 0
+	}
+	if a, ok := c.(*proto.ColAuto); ok {
+		if a.Data == nil {
+			return 0
+		}
+		return c18OffsetMax(a.Data)
+	}
+	if tup, ok := c.(proto.ColTuple); ok {
+		for _, x := range tup {
+			if v := c18OffsetMax(x); v > m {
+				m = v
+			}
+		}
+		return m
+	}
+	if _, ok := c.(interface{ ColumnName() string }); ok {
+		return c18OffsetMax(deref(reflect.ValueOf(c)).Field(0).Interface())
+	}
+	v := deref(reflect.ValueOf(c))
+	if v.Kind() != reflect.Struct {
+		return 0
+	}
+	offs := func(f reflect.Value) {
+		for i := 0; i < f.Len(); i++ {
+			if x := f.Index(i).Uint(); x > m {
+				m = x
+			}
+		}
+	}
+	sub := func(x any) {
+		if v := c18OffsetMax(x); v > m {
+			m = v
+		}
+	}
+	switch typeBase(v.Type()) {
+	case "ColArr":
+		offs(v.FieldByName("Offsets"))
+		sub(v.FieldByName("Data").Interface())
+	case "ColNullable":
+		sub(v.FieldByName("Values").Interface())
+	case "ColMap":
+		offs(v.FieldByName("Offsets"))
+		sub(v.FieldByName("Keys").Interface())
+		sub(v.FieldByName("Values").Interface())
+	case "ColLowCardinality":
+		sub(reflectIface(v.FieldByName("index")))
+	}
+	return m
+}
+
 // c18Readable: Row(i) returns (does not panic) for every i < n
 func c18Readable(c any, n int) (ok bool) {
 	defer func() {
@@ -499,6 +560,8 @@ func c18Acc(res proto.Results) (string, bool) {
 		case n < 0:
 			xs[i] = sx("-1", "t")
 		case n > c18AccMax:
+			return "", false
+		case c18OffsetMax(rc.Data) > uint64(c18AccMax):
 			return "", false
 		default:
 			rd := bsym(c18Readable(rc.Data, n))
